@@ -87,6 +87,8 @@ def goto(ref, est, thr=0.35, mu=0.2, sigma=0.2):
         if len(inw) == 1:
             off = inw[0] - ref[k]
             err[k] = off / prev if off < 0 else off / nxt
+    if any(abs(abs(e) - thr) < 1e-9 for e in err):
+        return None                       # a beat error within rounding distance of the threshold: not asserted
     inc = [i for i, e in enumerate(err) if abs(e) > thr]
     track = None
     if len(inc) < 3:
@@ -102,6 +104,8 @@ def goto(ref, est, thr=0.35, mu=0.2, sigma=0.2):
     m = sum(abs(x) for x in track) / len(track)
     mean = sum(track) / len(track)
     sd = math.sqrt(sum((x - mean) ** 2 for x in track) / (len(track) - 1))
+    if abs(m - mu) < 1e-9 or abs(sd - sigma) < 1e-9:
+        return None                       # mean / std of the track within rounding distance of goto_mu / goto_sigma (summation order decides)
     return 1.0 if (m < mu and sd < sigma) else 0.0
 
 
